@@ -9,6 +9,14 @@ ALL = ["C%02d" % i for i in range(1, 21)]
 
 # id -> dict(level, technique, text, note, design_ref, engine)
 CHECKS = {
+    "C01": dict(
+        level="exploration",
+        engine="E5-crash",
+        technique="bounded-exhaustive enumeration of ranked input spaces with a process-level crash oracle in supervised child processes (rlimits, panic capture, death attribution)",
+        text="Six ranked families are enumerated completely inside their bounds, each case = load + render + formatting the error in five forms, in child processes under RLIMIT_AS with panics caught and aborts/signals attributed to the exact case: every string of up to 4 (thorough 5) fragments over a 24-fragment delimiter/quote/escape alphabet as template and as expression; every sequence of up to 3 (4) tags over 38 tags; every built-in and contrib filter/test/method x 8 receivers and every function x every argument tuple of arity <= 2 (3) over a 14-value boundary alphabet; 12 operators and 11 size-taking built-ins over all pairs of the edge value alphabet; 31 chain/nesting shapes at depths 150/151/2000/20000/200000 on the main thread and a 2 MiB thread in an opt-level-0 build (thorough also checked-release); every program of the depth-2 generator space with loop controls. 1.3e6 cases quick.",
+        note="A timeout is recorded as inconclusive, never as a crash. Native-stack findings for unguarded chain recursion, self-referential namespaces and very deep data are recorded known findings. Inputs beyond the fragment/arity bounds and argument values off the boundary alphabet are not explored.",
+        design_ref="2/C01",
+    ),
     "C16": dict(
         level="exploration",
         engine="E1-enum",
